@@ -12,7 +12,7 @@ Local Open Scope N_scope.
 Definition xterm_keys : list kname :=
   [KBackspace; KDelete; KInsert; KDown; KEnd; KHome; KLeft; KPageDown; KPageUp; KRight; KUp]
   ++ map (fun i => KF (1 + i)) (nrange 12)
-  ++ map (fun i => KChar (97 + i)) (nrange 26) ++ map (fun i => KChar (48 + i)) (nrange 10).
+  ++ map (fun i => KChar (32 + i)) (nrange 95).
 
 Definition xterm_entry_ok (k : kname) (mods : N) (a : bool) : bool :=
   match xterm_seq k mods a with
@@ -44,14 +44,12 @@ Proof.
     apply in_or_app. right. apply in_or_app. left. apply in_map_iff. exists (n - 1). split; [f_equal; lia|].
     apply nrange_In. lia.
   - (* KChar c *)
-    destruct ((mods =? 2) && ((97 <=? c) && (c <=? 122) || (48 <=? c) && (c <=? 57))) eqn:E1.
-    + apply in_or_app. right. apply in_or_app. right.
-      destruct ((97 <=? c) && (c <=? 122)) eqn:E2.
-      * apply in_or_app. left. apply in_map_iff. exists (c - 97). split; [f_equal; lia| apply nrange_In; lia].
-      * apply in_or_app. right. apply in_map_iff. exists (c - 48). split; [f_equal; lia| apply nrange_In; lia].
-    + destruct ((mods =? 4) && (97 <=? c) && (c <=? 122)) eqn:E2; [|discriminate].
-      apply in_or_app. right. apply in_or_app. right. apply in_or_app. left.
-      apply in_map_iff. exists (c - 97). split; [f_equal; lia| apply nrange_In; lia].
+    assert (Hc : 32 <= c <= 126).
+    { repeat match type of H with
+             | context [if ?b then _ else _] => let E := fresh "E" in destruct b eqn:E; [lia|]
+             end. discriminate. }
+    apply in_or_app. right. apply in_or_app. right.
+    apply in_map_iff. exists (c - 32). split; [f_equal; lia| apply nrange_In; lia].
 Qed.
 
 (* masks 0..7 only: the library's table stops there (known finding C04-key-mask, see
@@ -80,3 +78,24 @@ Lemma xterm_mask8_refuted :
   /\ fst (prod_decode (print (RXterm KUp 8 false)))
      = [EKey (KChar 91) 2; EKey (KChar 49) 0; EKey (KChar 59) 0; EKey (KChar 57) 0; EKey (KChar 65) 0].
 Proof. split; [reflexivity|]. split; vm_compute; reflexivity. Qed.
+
+(* coverage of the table by the reference encoding: every entry is pinned by C04_xterm_keys
+   except an explicit remainder whose names are the library's own (trusted names) *)
+Definition xterm_image : list (list N) :=
+  flat_map (fun k => flat_map (fun a => flat_map (fun mods =>
+    match xterm_seq k mods a with Some w => [w] | None => [] end) (nrange 8)) [true; false]) xterm_keys.
+
+Definition trusted_names : list (list N) :=
+  (* the six introducers read as Esc / Alt+O .. when nothing follows *)
+  [[27]; [27; 79]; [27; 80]; [27; 91]; [27; 93]; [27; 95]]
+  (* CSI P .. S as unmodified F1 .. F4 (xterm sends SS3 P .. S) *)
+  ++ [[27; 91; 80]; [27; 91; 81]; [27; 91; 82]; [27; 91; 83]]
+  (* rxvt's CSI 7 ~ / CSI 8 ~ (named Insert / End by the library; rxvt: Home / End) with masks 0..7 *)
+  ++ flat_map (fun c => [27; 91; c; 126] :: map (fun m => [27; 91; c; 59; 49 + m; 126]) (map (fun i => 1 + i) (nrange 7))) [55; 56].
+
+Definition mem_bytes (w : list N) (l : list (list N)) : bool := existsb (bytes_eqb w) l.
+
+Lemma table_coverage :
+  forallb (fun e => mem_bytes (fst e) xterm_image || mem_bytes (fst e) trusted_names) prod_key_table = true
+  /\ length trusted_names = 26%nat.
+Proof. split; vm_compute; reflexivity. Qed.
